@@ -76,13 +76,14 @@ def run_model(ctx, cases):
     return out
 
 
-def run_real(ctx, exe, cases):
+def run_real(ctx, exe, cases, tmo=None):
     """cases: list of (key, host, text) → {key: dict(status, items, err)}"""
     db = str(vlib.REPO / "database" / "phreeqc.dat")
+    tmo = tmo or TIMEOUT
 
     def chunk(cs):
         inp = "".join(f"{i} {h} {(t.encode('latin1').hex() or '-')}\n" for i, (_, h, t) in enumerate(cs))
-        r = ctx.run_harness(exe, inp, args=[db, str(TIMEOUT)], timeout=TIMEOUT * len(cs) + 600)
+        r = ctx.run_harness(exe, inp, args=[db, str(tmo)], timeout=tmo * len(cs) + 600)
         res = {}
         for line in r.stdout.splitlines():
             if not line.startswith("R "):
@@ -105,8 +106,11 @@ def run_real(ctx, exe, cases):
 
 
 def close(a, b, tol=1e-12):
+    if isinstance(a, str) and isinstance(b, str):
+        # the sign printf gives a NaN is not part of the value (the model carries one canonical NaN)
+        return a == b or a.replace("-nan", " nan") == b.replace("-nan", " nan")
     if isinstance(a, str) or isinstance(b, str):
-        return a == b
+        return False
     if isinstance(a, tuple) or isinstance(b, tuple):
         return False
     if a != a or b != b:
@@ -167,8 +171,6 @@ def judge(m, real, host, hp=False):
             return f"malformed program: reference gives BASIC error ({m['kind']}), real engine delivers values under {host}"
         return None
     # reference evaluation delivers values
-    if m["ub"]:
-        return None                       # a C conversion with undefined behaviour was involved: values not judged
     if host in ("punch", "punchhp"):
         if st != "ok":
             return f"real engine reports an error under {host}, reference evaluation delivers values: {real['err'][:200]}"
@@ -220,6 +222,12 @@ def hosts_oracle(reals):
     return None
 
 
+def ub_excused(m, problem):
+    """a difference after a C conversion with undefined behaviour ((long) of NaN / out of range) is not judged;
+    a crash or hang always is"""
+    return bool(m["ub"]) and not problem.startswith(("crash", "hang"))
+
+
 def check_program(ctx, exe, text, hosts=HOSTS, with_hp=False):
     """full comparison of one program; returns list of problems"""
     mcases = [("m0", 0, text)] + ([("m1", 1, text)] if with_hp else [])
@@ -229,11 +237,11 @@ def check_program(ctx, exe, text, hosts=HOSTS, with_hp=False):
     probs = []
     for h in hosts:
         p = judge(ms["m0"], rs[h], h)
-        if p:
+        if p and not ub_excused(ms["m0"], p):
             probs.append(p)
     if with_hp:
         p = judge(ms["m1"], rs["punchhp"], "punchhp", True)
-        if p:
+        if p and not ub_excused(ms["m1"], p):
             probs.append(p)
     if set(hosts) == set(HOSTS) and ms["m0"]["status"] != "fuel":
         p = hosts_oracle({h: rs[h] for h in HOSTS})
@@ -281,7 +289,7 @@ def run(ctx):
                         {"program": text, "hosts": ["punch"]})
     progs = [dict(text=t, kind="corpus", hist={}, nlines=t.count("\n") + 1) for t in CORPUS] + make_programs(ctx, n)
     stats = dict(programs=len(progs), judged_pairs=0, value_cells=0, ref_ok=0, ref_err=0, ref_fuel=0, ref_unsupported=0, ref_ub=0,
-                 skipped_large=0, real_timeouts=0, error_class_same=0, error_class_other=0, hp_programs=0)
+                 skipped_large=0, real_timeouts=0, ub_differences_not_judged=0, error_class_same=0, error_class_other=0, hp_programs=0)
     construct = {}
     kinds = {}
     lines_hist = {}
@@ -294,17 +302,23 @@ def run(ctx):
         mcases = [((i, 0), 0, p["text"]) for i, p in enumerate(batch)] + \
                  [((i, 1), 1, p["text"]) for i, p in enumerate(batch) if hp_flags[i]]
         ms = run_model(ctx, mcases)
-        rcases = []
+        ctx.log(f"batch {b0}: reference evaluation of {len(mcases)} runs done")
+        rcases, slow = [], []
         for i, p in enumerate(batch):
             m = ms[(i, 0)]
             if len(m["punch"]) > MAX_PUNCH:
                 stats["skipped_large"] += 1
                 continue
+            # reference out of fuel (probably an endless loop): only "no crash" is checked, with a short time limit
+            dest = slow if m["status"] == "fuel" else rcases
             for h in HOSTS:
-                rcases.append(((i, h), h, p["text"]))
+                dest.append(((i, h), h, p["text"]))
             if hp_flags[i]:
-                rcases.append(((i, "punchhp"), "punchhp", p["text"]))
+                dest.append(((i, "punchhp"), "punchhp", p["text"]))
         rs = run_real(ctx, exe, rcases)
+        if slow:
+            rs.update(run_real(ctx, exe, slow, tmo=2))
+        ctx.log(f"batch {b0}: {len(rcases)} real-engine runs done")
         for i, p in enumerate(batch):
             m = ms[(i, 0)]
             kinds[p["kind"].split("/")[0]] = kinds.get(p["kind"].split("/")[0], 0) + 1
@@ -333,13 +347,17 @@ def run(ctx):
                 stats["real_timeouts"] += r["status"] == "timeout"
                 pr = judge(m, r, h)
                 stats["judged_pairs"] += 1
-                if pr:
+                if pr and ub_excused(m, pr):
+                    stats["ub_differences_not_judged"] += 1
+                elif pr:
                     problems.append(pr)
             if hp_flags[i]:
                 stats["hp_programs"] += 1
                 pr = judge(ms[(i, 1)], rs[(i, "punchhp")], "punchhp", True)
                 stats["judged_pairs"] += 1
-                if pr:
+                if pr and ub_excused(ms[(i, 1)], pr):
+                    stats["ub_differences_not_judged"] += 1
+                elif pr:
                     problems.append(pr)
             if m["status"] != "fuel":
                 pr = hosts_oracle({h: rs[(i, h)] for h in HOSTS})
